@@ -37,13 +37,13 @@ def verify(s, inputs, out):
     pubs = [add(out, neg(inputs[j])) for j in used]
     return borromean.verify(e0, sc, pubs, [len(used)], msg(inputs, out))
 
-def prove(inputs, out, used, idx, sec, forged, k):
+def prove(inputs, out, used, idx, sec, forged, k, allow_infinite_member=False):
     """adversarial prover. used: sorted list of selected input indices; idx: position within `used` of the known key;
     sec: discrete log of out - inputs[used[idx]]; forged: chosen scalars"""
     nin = len(inputs); bm = bytearray((nin + 7) // 8)
     for j in used: bm[j // 8] |= 1 << (j % 8)
     pubs = [add(out, neg(inputs[j])) for j in used]
-    if any(P is None for P in pubs): return None
+    if any(P is None for P in pubs) and not allow_infinite_member: return None
     res = borromean.sign([pubs], [idx], [sec], [k], [forged], msg(inputs, out))
     if res is None: return None
     e0, s = res
